@@ -144,6 +144,8 @@ struct OvInfo {
     committed: bool,
     base_root: [u8; 32],
     root: [u8; 32],
+    /// root epoch (number of changes of the committed root) when the overlay's session was finished — for the ABA test (F27)
+    epoch_at_finish: u32,
 }
 
 struct FinInfo {
@@ -972,6 +974,11 @@ impl<'a> Engine<'a> {
                 if self.fins[fid].writes.iter().any(|(_, v)| v.as_ref().map_or(false, |v| v.len() > 1332)) {
                     self.ev("commit_with_overflow_value");
                 }
+                if self.aba_stop {
+                    // known finding F27: the store may be corrupted from here on; the handle is closed so that the rest of a compound
+                    // operation (deferred commits, overlay scenarios) does not report the consequences under other names
+                    self.db = None;
+                }
             }
             Ok(Ok(false)) => {
                 self.out.fail(format!("non-blocking commit deferred although no session is alive: {op}"));
@@ -1082,6 +1089,7 @@ impl<'a> Engine<'a> {
                 committed: false,
                 base_root: f.prev_root,
                 root,
+                epoch_at_finish: f.seqn_at_finish,
             });
             self.ev("overlays_created");
             if chain.len() >= 2 {
@@ -1360,8 +1368,18 @@ impl<'a> Engine<'a> {
                 self.ovs[oid].committed = true;
                 self.seqn += 1;
                 self.last_marker = Some(oid);
-                self.out.line(op, "ok".into());
+                self.out.line(op.clone(), "ok".into());
                 self.ev("overlay_commits_ok");
+                if self.ovs[oid].parent.is_none() && self.ovs[oid].epoch_at_finish != self.root_epoch {
+                    // F27 for overlays: the first overlay of a chain was prepared on this root, which changed and was restored in between
+                    self.out.fail(format!(
+                        "C12 F27 ABA commit accepted: the committed root changed {} time(s) and was restored between the end of the session and the commit of its changeset ({op})",
+                        self.root_epoch - self.ovs[oid].epoch_at_finish
+                    ));
+                    self.ev("aba_commit_accepted_history_ended");
+                    self.aba_stop = true;
+                    self.db = None;
+                }
             }
             Ok(Ok(false)) => {
                 self.out.fail(format!("non-blocking overlay commit deferred although no session is alive: {op}"));
